@@ -27,10 +27,10 @@ def runFlush (args : List String) : String :=
     | _, _ => "bad-op"
   | _ => "bad-op"
 
-/-- `merge <resps>` -/
+/-- `merge <initial count> <resps>` (the count is only used by the judge) -/
 def runMerge (args : List String) : String :=
   match args with
-  | [resps] =>
+  | [_, resps] =>
     match parseResps resps with
     | some l => match Resp.merge l with
       | .ok out => showResps out
